@@ -12,6 +12,7 @@
  r6 OWN-LOG         an auditor that analyses another text (the body of a called function) never reports into the caller's log.
 Not decided: termination bounds, absence of stack overflow on adversarial nesting, JSON library behaviour.
 """
+import os
 from engine.cfgq import call_sites, dominating_guards, normalise_cond, guard_atoms, paths_avoiding
 from engine.evalmini import Interp, Obj, OutOfFragment, NOT_HANDLED, enum_values
 from engine.shape import Keyer
@@ -796,7 +797,7 @@ def check(db, rep):
     r4 = rep.rule('r4', 'NO-ESCAPE: every throwing accessor in the analysis code is guarded, in a try block, or decided by another rule', 100)
     no_escape(db, r4, rep)
     r9 = rep.rule('r9', 'DEPTH-BOUNDED: the consumers of a parsed tree recurse over it, so the parser refuses (with a critical error) a tree nested deeper than a fixed bound before it builds the syntax tree, '
-                        'and the raw tree the grammar actions build is released without nested destructor calls', 3)
+                        'and the raw tree the grammar actions build is released without nested destructor calls', 5)
     depth_bounded(db, r9, rep)
 
 
@@ -1077,7 +1078,9 @@ def depth_bounded(db, rule, rep):
 
     def run_gate(root):
         st = Obj(__cls__=D + 'ParserState', parsedTree=None, currentPosition=0, countCriticalErrors=0, reporter=None, nextTokenCall=None)
-        r = Interp(db, max_steps=20000000).call(gate, [st, root])
+        it_ = Interp(db, max_steps=20000000)
+        it_.max_loop = 300000
+        r = it_.call(gate, [st, root])
         return bool(r), st['countCriticalErrors']
     try:
         a64, _ = run_gate(chain(64)[0])
@@ -1095,6 +1098,93 @@ def depth_bounded(db, rule, rep):
         rule.violation('gate:bound', '%s:%d' % (gate.file, gate.line), 'SemanticCheck refuses a chain of 4096 nested operators without a counted critical error: the refusal is silent')
     else:
         rule.ok('gate:bound', 'a chain of 64 and a three-level tree of 1200 nodes pass; a chain of 4096 is refused with a critical error', '%s:%d' % (gate.file, gate.line))
+    # (2c) brackets are not nodes of the syntax tree, and the generators add them (every infix operand of a product is bracketed): the text
+    # printed for an accepted tree must be accepted again, so bracket nodes must not use up the bound - and the construction of the syntax tree
+    # must not recurse through them, because their number is then bounded by nothing
+    if 'PUNC_PL' in ids and not deep and a64:
+        def bracketed_chain(depth):
+            node = None
+            for i in range(depth):
+                node = mk([node] if node is not None else [], depth - i)
+                node = Obj(__cls__=D + 'Node', token=Obj(__cls__=R + 'Token', id=ids['PUNC_PL'], pos=Obj(start=0, finish=1)), children=[node])
+            return node
+        try:
+            lo, hi = 64, 4096
+            while hi - lo > 1:
+                mid = (lo + hi) // 2
+                if run_gate(chain(mid)[0])[0]:
+                    lo = mid
+                else:
+                    hi = mid
+            with_brackets, _ = run_gate(bracketed_chain(lo))
+        except OutOfFragment as e:
+            rule.broken('SemanticCheck outside the evaluable fragment: %s' % e)
+            return
+        cnr = next((f_ for f_ in db.functions if f_.name == D + 'CreateNodeRecursive' and f_.body >= 0), None)
+        rec_msg = None
+        if cnr is not None:
+            def oc2(it, fn, n, env):
+                cs_ = n.get('cs') or ''
+                if n['k'] in ('CXXConstructExpr', 'CXXTemporaryObjectExpr') and (n.get('cls') or '').endswith('SyntaxTree::Node'):
+                    return Obj(__cls__=R + 'SyntaxTree::Node', children=[])
+                if cs_.startswith('std::make_unique'):
+                    return Obj(__cls__=R + 'SyntaxTree::Node', children=[])
+                if cs_.endswith('::AdoptChild'):
+                    return None
+                return NOT_HANDLED
+            node = mk([])
+            for _ in range(200):
+                node = Obj(__cls__=D + 'Node', token=Obj(__cls__=R + 'Token', id=ids['PUNC_PL'], pos=Obj(start=0, finish=1)), children=[node])
+            try:
+                Interp(db, on_call=oc2, max_steps=2000000).call(cnr, [node])
+            except OutOfFragment as e:
+                if 'recursion depth' in str(e):
+                    rec_msg = 'CreateNodeRecursive calls itself once per bracket: "(" * N + "1" + ")" * N is a tree of nesting 1 for the gate and of recursion depth N here'
+                else:
+                    rule.broken('CreateNodeRecursive outside the evaluable fragment: %s' % e)
+                    return
+        if not with_brackets:
+            rule.violation('gate:brackets', '%s:%d' % (gate.file, gate.line), 'SemanticCheck accepts a chain of %d nested operators but refuses the same chain with each operand in brackets: the bound counts bracket nodes, '
+                           'which never reach the syntax tree and which the generators add (X1∪X1×X1∪X1×… with 700 operators parses; its own printed text, with the brackets ViDecart adds, is a syntax error)' % lo)
+        elif rec_msg:
+            rule.violation('gate:brackets', '%s:%d' % (cnr.file, cnr.line), rec_msg)
+        else:
+            rule.ok('gate:brackets', 'the deepest accepted chain (%d) is accepted with every operand bracketed; the syntax tree is built without recursing through brackets' % lo, '%s:%d' % (gate.file, gate.line))
+    # (2b) the width: children of a syntax-tree node are counted and addressed by ChildrenCount()'s return type; a node with more children than
+    # that type can count must not reach the syntax tree (the count wraps: the node shows no children, or a negative number of them)
+    cc = db.fn(R + 'SyntaxTree::Node::ChildrenCount', required=False)
+    bits = None
+    if cc is not None:
+        rt = (cc.rec.get('ret') or '').replace('const ', '').strip()
+        alias = rt.split('::')[-1]
+        import re as _re
+        width = {'int8_t': 7, 'int16_t': 15, 'short': 15, 'int32_t': 31, 'int': 31, 'int64_t': 63, 'long': 63, 'ptrdiff_t': 63, 'size_t': 64, 'uint16_t': 16, 'uint32_t': 32}
+        bits = width.get(alias)
+        if bits is None:
+            for root_, _d, files in os.walk(os.path.join(db.root, 'ccl', 'rslang', 'include')):
+                for fn_ in files:
+                    m = _re.search(r'using\s+%s\s*=\s*([A-Za-z_0-9:]+)\s*;' % _re.escape(alias), open(os.path.join(root_, fn_), errors='replace').read())
+                    if m:
+                        bits = width.get(m.group(1).split('::')[-1], bits)
+    if cc is None or bits is None:
+        rule.broken('the type that counts the children of a node (SyntaxTree::Node::ChildrenCount) is not recognised')
+    elif bits >= 31:
+        rule.ok('gate:width', 'children are counted by a type of %d value bits: no input of a size the library can hold overflows it' % bits, '%s:%d' % (cc.file, cc.line), nontrivial=False)
+    else:
+        try:
+            fits, _ = run_gate(mk([mk([]) for _ in range(2 ** bits - 1)]))
+            over, crit_w = run_gate(mk([mk([]) for _ in range(2 ** bits)]))
+        except OutOfFragment as e:
+            rule.broken('SemanticCheck outside the evaluable fragment: %s' % e)
+            return
+        if not fits:
+            rule.violation('gate:width', '%s:%d' % (gate.file, gate.line), 'SemanticCheck refuses a node with %d children, which the node can count' % (2 ** bits - 1))
+        elif over or crit_w < 1:
+            rule.violation('gate:width', '%s:%d' % (gate.file, gate.line), 'children of a node are counted and addressed by a %d-bit signed type (%s), and SemanticCheck %s a node with %d children: '
+                           'X1×X1×…×X1 with %d factors parses, ChildrenCount() is %d, the visitors and generators see no child (the product prints as an empty text, a set literal as {})' % (
+                               bits + 1, cc.rec.get('ret'), 'accepts' if over else 'silently refuses', 2 ** bits, 2 ** bits, -(2 ** bits)))
+        else:
+            rule.ok('gate:width', 'a node with %d children passes, one with %d is refused with a critical error' % (2 ** bits - 1, 2 ** bits), '%s:%d' % (gate.file, gate.line))
     # (3) the raw tree is released iteratively
     dt = next((f for f in db.functions if f.name == D + 'Node::~Node' and f.body >= 0), None)
     node_rec = '%s:%d' % (gate.file, gate.line)
